@@ -5,7 +5,8 @@ string / value / argument / directive / type builders.
 `Good inp p` collects what is known of a pair `p` of a parse tree of `inp` that passed `validate_unicode_escapes`:
 * `deep` — every pair of the tree has children in the shape of its rule (`run_children_in_shape`),
 * `wit`  — every pair of the tree is witnessed by an evaluation of its rule's body on `inp` (`Lemmas/ParseWit.lean`),
-* `esc`  — no pair of the tree is a bad `\u` escape.
+* `esc`  — every `NormalStringValue` pair of the tree passed the loop of `validate_unicode_escapes` (fix fff8e9c: a `\u`
+  escape denotes a scalar value or is half of a surrogate pair `\uHHHH\uLLLL` inside that string).
 `Quiet r` says that the builder result `r` is a value or the model's own depth bound — never one of the Rust panics.
 Each lemma `quiet_X` is: `Good inp p → p.rule = R.X → Quiet (buildX (Ctx.spec inp) … p)`. The matcher sites are
 discharged by the kernel-evaluated acceptance of the extracted pattern against the shape of the GENERATED grammar
@@ -80,10 +81,10 @@ theorem child_flat {p c q : Pair} (hc : c ∈ p.children) (hq : q ∈ flat c) : 
 structure Good (inp : List Char) (p : Pair) : Prop where
   deep : DeepOk gList p
   wit : Wit gList inp p
-  esc : ∀ q ∈ flat p, badEscape (Ctx.spec inp) q = false
+  esc : ∀ q ∈ flat p, q.rule = R.NormalStringValue → scanEscapes (Ctx.spec inp) none (stringCharacters q) = none
 
 theorem Good.child {inp : List Char} {p c : Pair} (h : Good inp p) (hc : c ∈ p.children) : Good inp c :=
-  ⟨(deep_parts h.deep).2 c hc, h.wit.children c hc, fun q hq => h.esc q (child_flat hc hq)⟩
+  ⟨(deep_parts h.deep).2 c hc, h.wit.children c hc, fun q hq hr => h.esc q (child_flat hc hq) hr⟩
 
 /-- `only_child()` + dispatch -/
 theorem Good.only {inp : List Char} {p : Pair} {allowed : List RuleId} (h : Good inp p) (site : String)
@@ -138,14 +139,17 @@ theorem escape_decodes {digits : List Char} (h : escapeDenotesChar digits = true
     simp only [hp] at h
     exact ⟨Char.ofNat n, by simp [bind, Except.bind, charFromU32, h]⟩
 
-theorem quiet_decodeChar {inp : List Char} {sc : Pair} (hg : Good inp sc) (hr : sc.rule = R.StringCharacter) :
+/-- one `StringCharacter` that is not a `\uXXXX` escape; a `\u{…}` escape must have passed the validation -/
+theorem quiet_decodeChar {inp : List Char} {sc ch : Pair} (hg : Good inp sc)
+    (hoc : onlyChildOf OC_StringCharacter "StringCharacter" sc = .ok ch) (hch : ch.rule ∈ OC_StringCharacter)
+    (hgch : Good inp ch) (hne : ch.rule ≠ R.EscapedUnicode4)
+    (hbr : ch.rule = R.EscapedUnicodeBrace → escapeDenotesChar (((asStr (Ctx.spec inp) ch).drop 3).take
+      ((asStr (Ctx.spec inp) ch).length - 4)) = true) :
     Quiet (decodeChar (Ctx.spec inp) sc) := by
-  obtain ⟨ch, _, hch, hgch, hoc, _⟩ := hg.only "StringCharacter" (hr ▸ acc_StringCharacter)
-  have hbad := hgch.esc ch (self_mem_flat ch)
   unfold decodeChar
   rw [hoc, ok_bind]
-  split
-  · rename_i h1
+  by_cases h1 : ch.rule = R.EscapedUnicodeBrace
+  · rw [if_pos h1]
     obtain ⟨d, _, _, _, hod, _⟩ := hgch.only "EscapedUnicodeBrace" (h1 ▸ acc_EscapedUnicodeBrace)
     obtain ⟨d', hd', htxt⟩ := unicodeBrace_child hgch.wit h1
     have hdd : d = d' := by
@@ -155,31 +159,160 @@ theorem quiet_decodeChar {inp : List Char} {sc : Pair} (hg : Good inp sc) (hr : 
       cases this; rfl
     subst hdd
     rw [hod, ok_bind]
-    simp only [badEscape, h1, if_true] at hbad
-    rw [if_neg (by decide), ← htxt] at hbad
-    simp only [Bool.not_eq_false'] at hbad
+    have hbad := hbr h1
+    rw [← htxt] at hbad
     exact Quiet.of_ex (escape_decodes hbad)
-  · split
-    · rename_i h1 h2
-      simp only [badEscape, h2, if_true, Bool.not_eq_false'] at hbad
-      have hlen := unicode4_len hgch.wit h2
-      have : ¬ (asStr (Ctx.spec inp) ch).length < 2 := by omega
-      simp only [this, if_false]
-      exact Quiet.of_ex (escape_decodes hbad)
-    · split
-      · rename_i h1 h2 h3
-        exact Quiet.of_ex (escapedCharacter_ok hgch.wit h3)
-      · split
-        · rename_i h1 h2 h3 h4
-          obtain ⟨d, hd⟩ := normalChar_text hgch.wit h4
-          rw [hd]
-          exact Quiet.ok _
-        · rename_i h1 h2 h3 h4
-          have : ch.rule ∈ OC_StringCharacter := by
-            rcases hch with h | h
-            · simp [OC_StringCharacter] at h
-            · exact h
-          simp [OC_StringCharacter, h1, h2, h3, h4] at this
+  · rw [if_neg h1, if_neg hne]
+    by_cases h3 : ch.rule = R.EscapedCharacter
+    · rw [if_pos h3]
+      exact Quiet.of_ex (escapedCharacter_ok hgch.wit h3)
+    · rw [if_neg h3]
+      by_cases h4 : ch.rule = R.NormalStringCharacter
+      · rw [if_pos h4]
+        obtain ⟨d, hd⟩ := normalChar_text hgch.wit h4
+        rw [hd]
+        exact Quiet.ok _
+      · simp [OC_StringCharacter, h1, hne, h3, h4] at hch
+
+theorem Quiet.map {α β} {m : M α} {f : α → β} (hm : Quiet m) : Quiet (f <$> m) := by
+  intro e h
+  cases hm' : m with
+  | error e' =>
+    rw [hm'] at h
+    have h2 : (Except.error e' : M β) = .error e := h
+    cases h2
+    exact hm _ hm'
+  | ok a => rw [hm'] at h; cases h
+
+theorem hexOk_some {digits : List Char} {c : Nat} (h : hexOk digits = some c) : parseHexU32 digits = .ok c := by
+  unfold hexOk at h
+  cases hp : parseHexU32 digits with
+  | ok n => rw [hp] at h; cases h; rfl
+  | error e => rw [hp] at h; cases h
+
+/-- the code of a `\uXXXX` pair of a parse tree whose digits parse -/
+theorem unicode4Code_of_hexOk {inp : List Char} {ch : Pair} {c : Nat} (hw : Wit gList inp ch)
+    (hr : ch.rule = R.EscapedUnicode4) (h : hexOk ((asStr (Ctx.spec inp) ch).drop 2) = some c) :
+    unicode4Code (Ctx.spec inp) ch = .ok c := by
+  have hlen := unicode4_len hw hr
+  unfold unicode4Code
+  dsimp only
+  rw [if_neg (by omega)]
+  exact hexOk_some h
+
+/-- the characters of a string are `StringCharacter` pairs of the tree -/
+def CharsOk (inp : List Char) (l : List Pair) : Prop := ∀ sc ∈ l, sc.rule = R.StringCharacter ∧ Good inp sc
+
+theorem charsOk_head {inp : List Char} {sc : Pair} {rest : List Pair} (h : CharsOk inp (sc :: rest)) :
+    ∃ ch, sc.children = [ch] ∧ ch.rule ∈ OC_StringCharacter ∧ Good inp ch ∧
+      onlyChildOf OC_StringCharacter "StringCharacter" sc = .ok ch ∧ onlyChild sc = .ok ch := by
+  obtain ⟨hr, hg⟩ := h sc (List.mem_cons_self ..)
+  obtain ⟨ch, hc, hch, hgch, hoc, hoc'⟩ := hg.only "StringCharacter" (hr ▸ acc_StringCharacter)
+  refine ⟨ch, hc, ?_, hgch, hoc, hoc'⟩
+  rcases hch with h | h
+  · simp [OC_StringCharacter] at h
+  · exact h
+
+/-- the loop of `build_string_value` on the characters of a string that passed the loop of `validate_unicode_escapes`
+    (fix fff8e9c) never panics. (a) no pending lead; (b) a leading surrogate is pending: the next character is its trailing
+    surrogate, which the builder peeks and skips. -/
+theorem quiet_decodeChars {inp : List Char} : ∀ (l : List Pair), CharsOk inp l →
+    (scanEscapes (Ctx.spec inp) none (l.flatMap Pair.children) = none → Quiet (decodeChars (Ctx.spec inp) false l)) ∧
+    (∀ lead, scanEscapes (Ctx.spec inp) (some lead) (l.flatMap Pair.children) = none →
+      (∃ t, peekTrailing (Ctx.spec inp) l = .ok (some t) ∧ isTrailSurrogate t = true) ∧
+      Quiet (decodeChars (Ctx.spec inp) true l)) := by
+  intro l
+  induction l with
+  | nil =>
+    intro _
+    refine ⟨fun _ => ?_, fun lead h => ?_⟩
+    · rw [decodeChars_nil]; exact Quiet.ok _
+    · simp [scanEscapes] at h
+  | cons sc rest ih =>
+    intro hl
+    obtain ⟨ch, hc, hch, hgch, hoc, hoc'⟩ := charsOk_head hl
+    obtain ⟨iha, ihb⟩ := ih fun x hx => hl x (List.mem_cons_of_mem _ hx)
+    have hflat : (sc :: rest).flatMap Pair.children = ch :: rest.flatMap Pair.children := by
+      simp [List.flatMap_cons, hc]
+    rw [hflat]
+    have hgsc := (hl sc (List.mem_cons_self ..)).2
+    -- what the builder peeks at `rest` when nothing is pending there
+    have hpeek : scanEscapes (Ctx.spec inp) none (rest.flatMap Pair.children) = none →
+        ∃ tr, peekTrailing (Ctx.spec inp) rest = .ok tr := by
+      intro hs
+      cases rest with
+      | nil => exact ⟨none, peekTrailing_nil _⟩
+      | cons sc2 r2 =>
+        obtain ⟨ch2, hc2, _, hgch2, _, hoc2'⟩ := charsOk_head (fun x hx => hl x (List.mem_cons_of_mem _ hx))
+        rw [peekTrailing_cons _ r2 hoc2']
+        by_cases hu2 : ch2.rule = R.EscapedUnicode4
+        · have hflat2 : (sc2 :: r2).flatMap Pair.children = ch2 :: r2.flatMap Pair.children := by
+            simp [List.flatMap_cons, hc2]
+          rw [hflat2] at hs
+          cases hx : hexOk ((asStr (Ctx.spec inp) ch2).drop 2) with
+          | none => simp [scanEscapes, hu2, hx] at hs
+          | some c2 =>
+            rw [trailingSurrogate_u4 _ hu2 (unicode4Code_of_hexOk hgch2.wit hu2 hx)]
+            exact ⟨_, rfl⟩
+        · rw [trailingSurrogate_other _ hu2]; exact ⟨_, rfl⟩
+    refine ⟨fun hs => ?_, fun lead hs => ?_⟩
+    · by_cases hu : ch.rule = R.EscapedUnicode4
+      · cases hx : hexOk ((asStr (Ctx.spec inp) ch).drop 2) with
+        | none => simp [scanEscapes, hu, hx] at hs
+        | some code =>
+          have hcode := unicode4Code_of_hexOk hgch.wit hu hx
+          simp only [scanEscapes, hu, if_true, hx] at hs
+          by_cases hlead : isLeadSurrogate code = true
+          · rw [if_pos hlead] at hs
+            obtain ⟨⟨t, hpk, ht⟩, hq⟩ := ihb ch hs
+            rw [decodeChars_u4 _ rest hoc hu hcode hpk]
+            show Quiet (if isLeadSurrogate code = true then _ else _)
+            rw [if_pos hlead]
+            refine Quiet.bind (Quiet.of_eq (a := Char.ofNat (surrogatePairCode code t)) ?_) fun c _ => Quiet.map hq
+            simp [charFromU32, (surrogatePair_valid hlead ht).1]
+          · rw [if_neg hlead] at hs
+            by_cases hv : validScalar code = true
+            · rw [if_pos hv] at hs
+              obtain ⟨tr, hpk⟩ := hpeek hs
+              rw [decodeChars_u4 _ rest hoc hu hcode hpk]
+              have hq := iha hs
+              have hc1 : Quiet (charFromU32 code) := Quiet.of_eq (a := Char.ofNat code) (by simp [charFromU32, hv])
+              cases tr with
+              | none => exact Quiet.bind hc1 fun c _ => Quiet.map hq
+              | some t =>
+                show Quiet (if isLeadSurrogate code = true then _ else _)
+                rw [if_neg hlead]
+                exact Quiet.bind hc1 fun c _ => Quiet.map hq
+            · rw [if_neg hv] at hs; cases hs
+      · have hs' : scanEscapes (Ctx.spec inp) none (rest.flatMap Pair.children) = none ∧
+            (ch.rule = R.EscapedUnicodeBrace → escapeDenotesChar (((asStr (Ctx.spec inp) ch).drop 3).take
+              ((asStr (Ctx.spec inp) ch).length - 4)) = true) := by
+          simp only [scanEscapes, hu, if_false] at hs
+          by_cases hb : ch.rule = R.EscapedUnicodeBrace
+          · simp only [hb, if_true] at hs
+            by_cases he : escapeDenotesChar (((asStr (Ctx.spec inp) ch).drop 3).take
+                ((asStr (Ctx.spec inp) ch).length - 4)) = true
+            · rw [if_pos he] at hs; exact ⟨hs, fun _ => he⟩
+            · rw [if_neg he] at hs; cases hs
+          · simp only [hb, if_false] at hs; exact ⟨hs, fun h => absurd h hb⟩
+        rw [decodeChars_other _ rest hoc hu]
+        exact Quiet.bind (quiet_decodeChar hgsc hoc hch hgch hu hs'.2) fun c _ => Quiet.map (iha hs'.1)
+    · -- a lead is pending: this character must be its trailing surrogate
+      by_cases hu : ch.rule = R.EscapedUnicode4
+      · cases hx : hexOk ((asStr (Ctx.spec inp) ch).drop 2) with
+        | none => simp [scanEscapes, hu, hx] at hs
+        | some code =>
+          simp only [scanEscapes, hu, if_true, hx] at hs
+          by_cases ht : isTrailSurrogate code = true
+          · rw [if_pos ht] at hs
+            refine ⟨⟨code, ?_, ht⟩, ?_⟩
+            · rw [peekTrailing_cons _ rest hoc', trailingSurrogate_u4 _ hu (unicode4Code_of_hexOk hgch.wit hu hx), if_pos ht]
+            · rw [decodeChars_skip]; exact iha hs
+          · rw [if_neg ht] at hs; cases hs
+      · simp only [scanEscapes, hu, if_false] at hs
+        by_cases hb : ch.rule = R.EscapedUnicodeBrace
+        · simp [hb] at hs
+        · simp [hb] at hs
 
 theorem quiet_stringValueChars {inp : List Char} {p : Pair} (hg : Good inp p) (hr : p.rule = R.StringValue) :
     Quiet (stringValueChars (Ctx.spec inp) p) := by
@@ -197,8 +330,8 @@ theorem quiet_stringValueChars {inp : List Char} {p : Pair} (hg : Good inp p) (h
     · split
       · rename_i h1 h2 h3
         obtain ⟨_, hall⟩ := hgc.all (h3 ▸ acc_NormalStringValue)
-        refine Quiet.bind (Quiet.mapM fun sc hsc => ?_) fun cs _ => Quiet.ok _
-        exact quiet_decodeChar (hall sc hsc).2 (hall sc hsc).1
+        have hscan := hgc.esc c (self_mem_flat c) h3
+        refine Quiet.bind ((quiet_decodeChars c.children hall).1 hscan) fun cs _ => Quiet.ok _
       · rename_i h1 h2 h3
         have : c.rule ∈ OC_StringValue := by
           rcases hc with h | h
